@@ -1119,6 +1119,8 @@ impl RaftLogManager {
         save_logs.push(new_log_range.clone());
         let index_request = RaftIndexRequest::SaveLogs(save_logs);
         self.index_manager.as_ref().unwrap().do_send(index_request);
+        // a file of this id can only be the leftover of a start that was killed before the catalogue named it
+        std::fs::remove_file(Self::get_log_path(&self.base_path, &new_log_range)).ok();
         let log_actor_addr = Self::create_log_actor(&self.base_path, &new_log_range);
         self.logs.push(LogRangeWrap {
             log_range: new_log_range,
